@@ -3874,7 +3874,7 @@ impl M2Model {
 
                 // Calculate the offset in the data section where this texture's definition was written
                 // The texture definitions start at (header.textures.offset - base_data_offset)
-                let base_data_offset = std::mem::size_of::<M2Header>();
+                let base_data_offset = header_size;
                 let def_offset_in_data = (header.textures.offset as usize - base_data_offset)
                     + (i * texture_def_size)
                     + 8;
